@@ -249,6 +249,13 @@ def r2_sole_constructors(ctx):
                             for c, _, node in slice_calls(sl):
                                 if c and c.startswith('pavex::') and any(LIMIT in strip_generics(a) for a in node['aty']):
                                     ok, why = _none_only_when_disabled(ctx, c)
+                            # the same helper, inlined: the Option is built in the arms of a match on the limit, in this very body
+                            nones = [(xb, n2) for xb, _, n2 in sl if 'rv' in n2 and n2['rv']['k'] == 'agg' and strip_generics(n2['rv'].get('adt', '')) == 'core::option::Option'
+                                     and n2['rv'].get('var') == 'None']
+                            if not ok and nones:
+                                arms = [guard_context(ex, xb).get(LIMIT) for xb, _ in nones]
+                                if all(a == {'Disabled'} for a in arms):
+                                    ok, why = True, 'guarded by the None of an Option that is None only in the BodySizeLimit::Disabled arm (%s)' % ex.loc(nones[0][0])
                 ctx.ob('C14.R2', 'unlimited-collect-only-when-disabled', ok, ex.loc(bb, t),
                        'the collect() without a limit in BufferedBody::extract is %s' % why)
             if callee(t) == BB + '::_extract_with_limit':
